@@ -37,8 +37,31 @@ from bert_e.workflow.gitwaterflow import branches as B, integration as INT_, que
 
 PROPERTY = 'C01'
 STR, BOOL, INT = smt.STR, smt.BOOL, smt.INT
-CSET = smt.SetS(STR)
+# commit sets are an ABSTRACT join-semilattice (sort CommitSet with leq / join / bot and the
+# semilattice axioms): every algebra of sets is one, so what is proved here holds for real sets
+CSET = 'CommitSet'
 RSORT = smt.ArrS(STR, CSET)
+BOT = smt.App('cs.bot', [], CSET)
+
+
+def leq(a, b):
+    return smt.App('cs.leq', [a, b], BOOL)
+
+
+def join(a, b):
+    return smt.App('cs.join', [a, b], CSET)
+
+
+def semilattice_axioms():
+    a, b, c = smt.fresh_bound('a', CSET), smt.fresh_bound('b', CSET), smt.fresh_bound('c', CSET)
+    return [
+        smt.ForAll([a], leq(a, a)),
+        smt.ForAll([a, b, c], smt.Implies(smt.And(leq(a, b), leq(b, c)), leq(a, c))),
+        smt.ForAll([a, b], smt.And(leq(a, join(a, b)), leq(b, join(a, b)))),
+        smt.ForAll([a, b, c], smt.Implies(smt.And(leq(a, c), leq(b, c)), leq(join(a, b), c))),
+        smt.ForAll([a, b], smt.Implies(smt.And(leq(a, b), leq(b, a)), smt.Eq(a, b))),
+        smt.ForAll([a], leq(BOT, a)),
+    ]
 MIB = 'bert_e.workflow.gitwaterflow.integration:merge_integration_branches'
 ATQ = 'bert_e.workflow.gitwaterflow.queueing:add_to_queue'
 MQ = 'bert_e.workflow.gitwaterflow.queueing:merge_queues'
@@ -62,13 +85,32 @@ def unchanged_except(Ra, Rb, names, prefixes=(), dst_of=None):
 
 
 def _nm(I, x):
+    if isinstance(x, SOpt):
+        x = x.val
     if isinstance(x, SRef):
         return x.t
     return I.term_of(x)
 
 
+def equal(Ra, a, Rb, b):
+    return Ra[a] == Rb[b]
+
+
+def later(a, b):
+    """b is a later destination branch than a on a common merge path (C09 orders them)"""
+    raise NotImplementedError('symbolic only')
+
+
+def _s_equal(I, Ra, a, Rb, b):
+    return I.as_bool_value(smt.Eq(smt.Select(Ra.t, _nm(I, a)), smt.Select(Rb.t, _nm(I, b))))
+
+
+def _s_later(I, a, b):
+    return I.as_bool_value(smt.App('gwf.later', [_nm(I, a), _nm(I, b)], BOOL))
+
+
 def _s_incl(I, Ra, a, Rb, b):
-    return I.as_bool_value(smt.SetSubset(smt.Select(Ra.t, _nm(I, a)), smt.Select(Rb.t, _nm(I, b))))
+    return I.as_bool_value(leq(smt.Select(Ra.t, _nm(I, a)), smt.Select(Rb.t, _nm(I, b))))
 
 
 def _s_same(I, Ra, Rb, x):
@@ -88,7 +130,10 @@ def _s_unchanged_except(I, Ra, Rb, names, prefixes=(), dst_of=None):
                                                       smt.Eq(smt.SeqNth(sv.t, i), x)))))
     for p in prefixes:
         conds.append(smt.Not(smt.StrPrefixOf(smt.StrC(p), x)))
-    if dst_of is not None:
+    ditems = I.concrete_items(dst_of) if dst_of is not None else None
+    if ditems is not None:
+        conds += [smt.Not(smt.Eq(x, smt.App('Br.dst_branch', [_nm(I, w)], STR))) for w in ditems]
+    elif dst_of is not None:
         sv = I.seq_value(dst_of)
         i = smt.fresh_bound('i', INT)
         conds.append(smt.Not(smt.Exists([i], smt.And(
@@ -102,6 +147,8 @@ def _s_unchanged_except(I, Ra, Rb, names, prefixes=(), dst_of=None):
 def install_ancestry(env):
     env.intrinsics[incl] = _s_incl
     env.intrinsics[same] = _s_same
+    env.intrinsics[equal] = _s_equal
+    env.intrinsics[later] = _s_later
     env.intrinsics[unchanged_except] = _s_unchanged_except
 
     def reach(I, x):
@@ -120,14 +167,13 @@ def install_ancestry(env):
         cur = reach(I, self)
         u = cur
         for s in sources:
-            u = smt.SetUnion(u, reach(I, s))
+            u = join(u, reach(I, s))
         new = I.fresh_term('merge_commits', CSET, False)
         if len(sources) == 1:
             rs = reach(I, sources[0])
-            I.assume(smt.Implies(smt.Or(smt.SetSubset(cur, rs), smt.SetSubset(rs, cur)),
-                                 smt.Eq(new, smt.SetEmpty(STR))))
+            I.assume(smt.Implies(smt.Or(leq(cur, rs), leq(rs, cur)), smt.Eq(new, BOT)))
         emit(I, 'merge', self, tuple(sources))
-        setR(I, _nm(I, self), smt.SetUnion(u, new))
+        setR(I, _nm(I, self), join(u, new))
         if kw.get('do_push'):
             emit(I, 'push', (self,))
 
@@ -142,10 +188,29 @@ def install_ancestry(env):
         lambda I, self, *a, **k: emit(I, 'reset_local', self))
     env.model('Br', 'differs', trusted='git diff --quiet: any answer')(
         lambda I, self, other: SBool(I.fresh_term('differs', BOOL, False)))
+    def b_includes(I, self, c):
+        rc = c.t if isinstance(c, SOpaque) and c.t.sort == CSET else reach(I, c)
+        return SBool(leq(rc, reach(I, self)))
     env.model('Br', 'includes_commit', trusted='git merge-base --is-ancestor a b == (R[a] <= R[b]) for branch tips')(
-        lambda I, self, c: SBool(smt.SetSubset(reach(I, c), reach(I, self))))
+        b_includes)
     env.model('Br', 'get_latest_commit', trusted='git rev-parse: equal tips reach the same commits')(
         lambda I, self: SOpaque(reach(I, self), 'tip'))
+
+
+def exists_term(I, name_t):
+    """does the local branch exist now: existed at entry, then the creations / deletions of this run in order"""
+    e = smt.App('local.exists0', [name_t], BOOL)
+    for kind, t in I.ghost.get('ref_log', ()):
+        e = smt.Or(e, smt.Eq(name_t, t)) if kind == 'create' else smt.And(e, smt.Not(smt.Eq(name_t, t)))
+    return e
+
+
+def on_event(I, ev):
+    handlers.on_event(I, ev)
+    if ev[0] == 'create_local':
+        I.ghost['ref_log'] = I.ghost.get('ref_log', ()) + (('create', I.term_of(ev[1])),)
+    elif ev[0] == 'delete_local':
+        I.ghost['ref_log'] = I.ghost.get('ref_log', ()) + (('delete', I.term_of(ev[1])),)
 
 
 def havoc_R(I, fr):
@@ -157,8 +222,16 @@ def base_env():
     env = handlers.base_env(PROPERTY)
     install_ancestry(env)
     env.split_goals = True
+    # refutation only: commit sets as subsets of a 4-commit universe (a genuine set algebra)
+    env.interp = {'sorts': {'CommitSet': '(_ BitVec 4)'}, 'funs': {
+        'cs.leq': '(define-fun cs.leq ((a CommitSet) (b CommitSet)) Bool (= (bvand a (bvnot b)) #x0))',
+        'cs.join': '(define-fun cs.join ((a CommitSet) (b CommitSet)) CommitSet (bvor a b))',
+        'cs.bot': '(define-fun cs.bot () CommitSet #x0)'}}
     env.allow_inline(Q.get_queue_branch, Q.get_queue_integration_branch)
-    env.loop(MIB, 0, inv_mib, havoc=[havoc_local, havoc_R])
+    env.on_event = on_event
+    env.model('Br', 'exists', trusted='Branch.exists(): the local ref exists (entry state + creations/deletions so far)')(
+        lambda I, self: SBool(exists_term(I, _nm(I, self))))
+    env.loop(MIB, 0, inv_mib, havoc=[havoc_local, havoc_R], top_level=True)
     env.loop(MIB, 1, None, havoc=[havoc_local])
     return env
 
@@ -166,6 +239,8 @@ def base_env():
 def c01_setup(I, args):
     setup_common(I, args)
     I.ghost['R'] = I.fresh_term('R', RSORT, True)
+    for ax in semilattice_axioms():
+        I.assume(ax)
 
 
 # ---------------------------------------------------------------- the three merge helpers (git_utils)
@@ -260,9 +335,29 @@ def mib_setup(I, args):
         smt.Not(smt.StrPrefixOf(smt.StrC('tmp/'), d(smt.SeqNth(wb, i))))))))
 
 
-def inv_mib(wbranches, prev, _i, G):
-    # _i children processed: prev is the last processed integration branch
-    return (prev == wbranches[_i]
+def mib_setup_for(k):
+    """the same contract on a pull request with exactly k targets: the loop is unrolled, the obligations
+    are quantifier-free and a broken body is refuted with a concrete instance instead of left undecided"""
+    def setup(I, args):
+        c01_setup(I, args)
+        wbs = [br(I, I.fresh('wbranch%d' % i, 'str')) for i in range(k)]
+        args['wbranches'] = I.alloc_list(tuple(wbs))
+        d = lambda w: smt.App('Br.dst_branch', [w.t], STR)  # noqa: E731
+        for i, w in enumerate(wbs):
+            I.assume(smt.Not(smt.StrPrefixOf(smt.StrC('tmp/'), w.t)))
+            I.assume(smt.Not(smt.StrPrefixOf(smt.StrC('tmp/'), d(w))))
+            if i >= 1:
+                I.assume(smt.StrPrefixOf(smt.StrC('w/'), w.t))
+            for j, w2 in enumerate(wbs):
+                I.assume(smt.Not(smt.Eq(w.t, d(w2))))
+                if j < i:
+                    I.assume(smt.Not(smt.Eq(d(w), d(w2))))
+    return setup
+
+
+def inv_mib(wbranches, _i, G, prev=None):
+    # _i children processed: prev (when the code has it) is the last processed integration branch
+    return ((prev is None or prev == wbranches[_i])
             and all(incl(old(G.R), dst(wbranches[j]), G.R, dst(wbranches[j]))
                     and incl(old(G.R), wbranches[j], G.R, dst(wbranches[j])) for j in range(_i + 1))
             and all(incl(G.R, dst(wbranches[j]), G.R, dst(wbranches[j + 1])) for j in range(_i))
@@ -285,8 +380,320 @@ def ens_mib_frame(job, wbranches, out, G):
     return not out.returned or unchanged_except(old(G.R), G.R, [], ('tmp/',), wbranches)
 
 
+# ---------------------------------------------------------------- add_to_queue (1..3 targets)
+def qname(d):
+    return 'q/{}'.format(d.version)
+
+
+def qiname(job, w):
+    dsts = job.git.cascade.dst_branches
+    ver = dsts[0].version if (len(dsts) == 1 and dsts[0].hfrev > 0) else w.version
+    return 'q/w/{}/{}/{}'.format(job.pull_request.id, ver, job.pull_request.src_branch)
+
+
+def atq_setup_for(k):
+    def setup(I, args):
+        c01_setup(I, args)
+        I.ghost['ref_log'] = ()
+        job = args['job']
+        wbs = [br(I, I.fresh('wbranch%d' % i, 'str')) for i in range(k)]
+        args['wbranches'] = I.alloc_list(tuple(wbs))
+        d = lambda w: smt.App('Br.dst_branch', [w.t], STR)  # noqa: E731
+        ver = lambda t: smt.App('Br.version', [t], STR)  # noqa: E731
+        casc = I.get_attr(I.get_attr(job, 'git'), 'cascade')
+        I.set_attr(casc, 'dst_branches', I.alloc_list(tuple(SRef(d(w), 'Br') for w in wbs)))
+        R = I.ghost['R']
+        for i, w in enumerate(wbs):
+            q = smt.StrConcat(smt.StrC('q/'), ver(d(w)))
+            # names (C18): versions are dotted numbers, destination / integration branches are not q/ or tmp/
+            for t in (w.t, d(w)):
+                I.assume(smt.Not(smt.StrPrefixOf(smt.StrC('tmp/'), t)))
+                I.assume(smt.Not(smt.StrPrefixOf(smt.StrC('q/'), t)))
+            for t in (ver(d(w)), ver(w.t)):
+                I.assume(smt.Not(smt.StrPrefixOf(smt.StrC('w/'), t)))
+            # a queue that exists was validated: q/<v> includes development/<v> (QueueCollection.validate)
+            I.assume(smt.Implies(smt.App('local.exists0', [q], BOOL), leq(smt.Select(R, d(w)), smt.Select(R, q))))
+            for j in range(i):
+                I.assume(smt.Not(smt.Eq(d(w), d(wbs[j]))))
+                I.assume(smt.Not(smt.Eq(ver(d(w)), ver(d(wbs[j])))))
+                I.assume(smt.Not(smt.Eq(ver(w.t), ver(wbs[j].t))))
+    return setup
+
+
+def ens_atq_chain(job, wbranches, out, G):
+    return not out.returned or all(incl(G.R, qname(dst(wbranches[j])), G.R, qname(dst(wbranches[j + 1])))
+                                   for j in range(len(wbranches) - 1))
+
+
+def ens_atq_entries(job, wbranches, out, G):
+    # the pull request's queue entry on each version is the queue of that version, which includes the
+    # destination branch and the integration branch
+    return not out.returned or all(
+        incl(G.R, qiname(job, w), G.R, qname(dst(w))) and incl(G.R, qname(dst(w)), G.R, qiname(job, w))
+        and incl(old(G.R), w, G.R, qname(dst(w))) and incl(old(G.R), dst(w), G.R, qname(dst(w)))
+        for w in wbranches)
+
+
+def ens_atq_frame(job, wbranches, out, G):
+    return unchanged_except(old(G.R), G.R, [qname(dst(w)) for w in wbranches] + [qiname(job, w) for w in wbranches],
+                            ('tmp/',))
+
+
+# ---------------------------------------------------------------- QueueCollection._horizontal_validation
+def install_queue_objects(env):
+    env.add_class('QEntry', kind='ref', fields={'qbranch': 'opt[Br]', 'qints': 'seq[Br]'},
+                  items={B.QueueBranch: 'qbranch', B.QueueIntegrationBranch: 'qints'})
+    env.add_class('MEntry', kind='ref', fields={'qbranch': 'Br', 'qints': 'seq[Br]'},
+                  items={B.QueueBranch: 'qbranch', B.QueueIntegrationBranch: 'qints'})
+    env.add_class('QueuesMap', fields={})
+    env.add_class('QCObj', pyclass=B.QueueCollection, fields={'_queues': 'QueuesMap'})
+    env.model('QueuesMap', '__getitem__', trusted='self._queues[version]: the entry of that version')(
+        lambda I, self, version: I.ghost['entry'])
+    for name in ('MasterQueueMissing', 'MasterQueueLateVsDev', 'MasterQueueNotInSync', 'MasterQueueLateVsInt',
+                 'MasterQueueYoungerThanInt', 'MasterQueueDiverged', 'QueueInclusionIssue'):
+        env.ctors[getattr(X, name)] = lambda I, cls, *a: I.alloc_obj(None, 'QErr', {})
+    env.add_class('QErr', fields={})
+    env.yield_specs[HV] = lambda elem: True
+    env.loop(HV, 0, inv_hv, havoc=[havoc_yields])
+
+
+def havoc_yields(I, fr):
+    I.ghost['yields'] = I.fresh('yields@loop', 'int', is_input=False)
+
+
+def hv_setup(I, args):
+    c01_setup(I, args)
+    I.ghost['yields'] = SInt(smt.IntC(0))
+    I.ghost['entry'] = I.fresh('entry', 'QEntry')
+
+
+def nested(R, masterq, seq, n):
+    """the first n entries are nested: seq[0] <= masterq, seq[j+1] <= seq[j]"""
+    return ((n == 0 or incl(R, seq[0], R, masterq))
+            and all(incl(R, seq[j + 1], R, seq[j]) for j in range(n - 1)))
+
+
+def inv_hv(self, version, masterq, nextq, _i, _seq, G):
+    # silent so far: the master queue includes the destination and the visited entries are nested
+    return (G.yields >= 0 and ((_i == 0 and nextq == masterq) or (_i > 0 and nextq == _seq[_i - 1]))
+            and (G.yields != 0 or (incl(G.R, dst(masterq), G.R, masterq) and nested(G.R, masterq, _seq, _i))))
+
+
+def ens_hv_silent_means_nested(self, version, out, G):
+    e = G.entry
+    n = len(e.qints)
+    return G.yields != 0 or (
+        e.qbranch is not None
+        and incl(G.R, dst(e.qbranch), G.R, e.qbranch)
+        and nested(G.R, e.qbranch, e.qints, n)
+        and (n == 0 or incl(G.R, dst(e.qbranch), G.R, e.qints[n - 1])))
+
+
+def ens_hv_readonly(self, version, out, G):
+    return out.returned and same_all(old(G.R), G.R)
+
+
+def same_all(Ra, Rb):
+    return unchanged_except(Ra, Rb, [])
+
+
+# ---------------------------------------------------------------- merge_queues
+def edst(e):
+    return e.qbranch.dst_branch
+
+
+def mq_setup(I, args):
+    c01_setup(I, args)
+    I.ghost['ref_log'] = ()
+    E = I.fresh('mergeable_queues', 'fseq[MEntry]')
+    I.ghost['entries'] = E
+    args['queues'] = I.alloc_obj(None, 'QueuesMap', {})
+    e, f, j = smt.fresh_bound('e', INT), smt.fresh_bound('f', INT), smt.fresh_bound('j', INT)
+    ent = lambda v: smt.SeqNth(E.t, v)  # noqa: E731
+    rng = lambda v: smt.And(smt.Le(smt.IntC(0), v), smt.Lt(v, smt.SeqLen(E.t)))  # noqa: E731
+    qb = lambda v: smt.App('MEntry.qbranch', [ent(v)], STR)  # noqa: E731
+    qi = lambda v: smt.App('MEntry.qints', [ent(v)], smt.SeqS(STR))  # noqa: E731
+    d = lambda v: smt.App('Br.dst_branch', [qb(v)], STR)  # noqa: E731
+    # names (C18): q/ and q/w/ branches, destinations are neither q/ nor tmp/; one entry per destination
+    I.assume(smt.ForAll([e, j], smt.Implies(smt.And(rng(e), smt.Le(smt.IntC(0), j), smt.Lt(j, smt.SeqLen(qi(e)))),
+                                            smt.StrPrefixOf(smt.StrC('q/w/'), smt.SeqNth(qi(e), j)))))
+    I.assume(smt.ForAll([e], smt.Implies(rng(e), smt.And(
+        smt.Not(smt.StrPrefixOf(smt.StrC('q/'), d(e))), smt.Not(smt.StrPrefixOf(smt.StrC('tmp/'), d(e)))))))
+    I.assume(smt.ForAll([e, f], smt.Implies(smt.And(rng(e), rng(f), smt.Not(smt.Eq(e, f))),
+                                            smt.Not(smt.Eq(d(e), d(f))))))
+
+
+def mq_setup_small(I, args):
+    """two versions, two listed entries each: quantifier-free variant (refutation power, see mib_setup_for)"""
+    c01_setup(I, args)
+    I.ghost['ref_log'] = ()
+    ents = []
+    for e in range(2):
+        r = I.fresh('entry%d' % e, 'MEntry')
+        qi = tuple(br(I, I.fresh('entry%d_q%d' % (e, j), 'str')) for j in range(2))
+        I.set_attr(r, 'qints', I.alloc_list(qi))
+        ents.append((r, qi))
+    I.ghost['entries'] = I.alloc_list(tuple(r for r, _ in ents))
+    args['queues'] = I.alloc_obj(None, 'QueuesMap', {})
+    d = lambda r: smt.App('Br.dst_branch', [smt.App('MEntry.qbranch', [r.t], STR)], STR)  # noqa: E731
+    for r, qi in ents:
+        for q in qi:
+            I.assume(smt.StrPrefixOf(smt.StrC('q/w/'), q.t))
+        I.assume(smt.Not(smt.StrPrefixOf(smt.StrC('q/'), d(r))))
+        I.assume(smt.Not(smt.StrPrefixOf(smt.StrC('tmp/'), d(r))))
+    I.assume(smt.Not(smt.Eq(d(ents[0][0]), d(ents[1][0]))))
+    # listed entries of a version are distinct and nested, newest first (horizontal validation)
+    R = I.ghost['R']
+    for r, qi in ents:
+        I.assume(smt.Not(smt.Eq(qi[0].t, qi[1].t)))
+        I.assume(leq(smt.Select(R, qi[1].t), smt.Select(R, qi[0].t)))
+
+
+def nonempty(e):
+    return len(e.qints) > 0
+
+
+def req_mq(queues, G):
+    E = G.entries
+    R = G.R
+    n = len(E)
+    return (
+        # QueueCollection.validate (contract of _horizontal_validation above): the selected entry of a version
+        # includes the destination branch, so the merge is a fast-forward
+        all(not nonempty(E[e]) or incl(R, edst(E[e]), R, E[e].qints[0]) for e in range(n))
+        # destinations were nested before the event
+        and all(all(not later(edst(E[e]), edst(E[f])) or incl(R, edst(E[e]), R, edst(E[f])) for f in range(n))
+                for e in range(n))
+        # ASSUMED contract of QueueCollection.mergeable_queues (vertical validation + selection; decided only by
+        # the bounded stand-in bounded/c05_queue.py, clause b): what is selected on a version is selected on
+        # every later version, and the selected entries are nested across versions (add_to_queue above)
+        and all(all(not (later(edst(E[e]), edst(E[f])) and nonempty(E[e]))
+                    or (nonempty(E[f]) and incl(R, E[e].qints[0], R, E[f].qints[0])) for f in range(n))
+                for e in range(n)))
+
+
+def inv_mq(_i, _seq, G):
+    E = G.entries
+    return (len(_seq) == len(E)
+            and all(not (e < _i and nonempty(E[e])) or equal(G.R, edst(E[e]), old(G.R), E[e].qints[0])
+                    for e in range(len(E)))
+            and all((e < _i and nonempty(E[e])) or equal(G.R, edst(E[e]), old(G.R), edst(E[e]))
+                    for e in range(len(E)))
+            and unchanged_except(old(G.R), G.R, [edst(E[e]) for e in range(len(E))]))
+
+
+def ens_mq_chain(queues, out, G):
+    E = G.entries
+    n = len(E)
+    return not out.returned or all(all(not later(edst(E[e]), edst(E[f])) or incl(G.R, edst(E[e]), G.R, edst(E[f]))
+                                       for f in range(n)) for e in range(n))
+
+
+def ens_mq_moves(queues, out, G):
+    E = G.entries
+    return not out.returned or (
+        all(not nonempty(E[e]) or equal(G.R, edst(E[e]), old(G.R), E[e].qints[0]) for e in range(len(E)))
+        and all(nonempty(E[e]) or equal(G.R, edst(E[e]), old(G.R), edst(E[e])) for e in range(len(E)))
+        and unchanged_except(old(G.R), G.R, [edst(E[e]) for e in range(len(E))]))
+
+
+# ---------------------------------------------------------------- BranchCascade.validate
+CV = 'bert_e.workflow.gitwaterflow.branches:BranchCascade.validate'
+
+
+def install_cascade_objects(env):
+    env.add_class('VKey', kind='ref', fields={'major': 'int', 'minor': 'opt[int]'}, unpack=('major', 'minor'))
+    env.add_class('BSet', kind='ref', fields={'dev': 'opt[Br]', 'stb': 'opt[Br]', 'hf': 'opt[Br]'},
+                  items={B.DevelopmentBranch: 'dev', B.StabilizationBranch: 'stb', B.HotfixBranch: 'hf'})
+    env.add_class('CItem', kind='ref', fields={'key': 'VKey', 'bset': 'BSet'}, unpack=('key', 'bset'))
+    env.add_class('CascMap', fields={})
+    env.add_class('CascObj', pyclass=B.BranchCascade, fields={'_cascade': 'CascMap'})
+    env.model('CascMap', 'items', trusted='self._cascade.items(): the (major, minor) entries in cascade order')(
+        lambda I, self: I.ghost['citems'])
+    for name in ('DevBranchDoesNotExist', 'VersionMismatch', 'DevBranchesNotSelfContained'):
+        env.exc_types[name] = getattr(X, name)
+    env.loop(CV, 0, inv_cv, types={'previous_dev_branch': 'opt[Br]'})
+
+
+def cv_setup(I, args):
+    c01_setup(I, args)
+    I.ghost['citems'] = I.fresh('cascade_entries', 'fseq[CItem]')
+
+
+def hf_only(it):
+    return it.bset.dev is None and it.bset.stb is None and it.bset.hf is not None
+
+
+def cv_ok_upto(R, items, n):
+    """what a silent validate has established on the first n entries: every stabilization branch is included in its
+    development branch, and every development branch includes the previous one (hotfix-only entries skipped)"""
+    return (all(hf_only(items[k]) or (items[k].bset.dev is not None
+                                      and (items[k].bset.stb is None or incl(R, items[k].bset.stb, R, items[k].bset.dev)))
+                for k in range(n))
+            and all(all(hf_only(items[a]) or hf_only(items[b])
+                        or any(not hf_only(items[m]) for m in range(a + 1, b))
+                        or incl(R, items[a].bset.dev, R, items[b].bset.dev)
+                        for a in range(b)) for b in range(n)))
+
+
+def inv_cv(previous_dev_branch, _i, _seq, G):
+    # previous_dev_branch is the development branch of the last non hotfix-only entry seen
+    return (cv_ok_upto(G.R, _seq, _i)
+            and (all(hf_only(_seq[k]) for k in range(_i)) if previous_dev_branch is None else
+                 any(not hf_only(_seq[k]) and _seq[k].bset.dev == previous_dev_branch
+                     and all(hf_only(_seq[m]) for m in range(k + 1, _i)) for k in range(_i))))
+
+
+def ens_cv(self, out, G):
+    return not out.returned or cv_ok_upto(G.R, G.citems, len(G.citems))
+
+
+def ens_cv_readonly(self, out, G):
+    return same_all(old(G.R), G.R)
+
+
 def contracts(env):
     cs = merge_contracts(env)
+    install_queue_objects(env)
+    install_cascade_objects(env)
+    cs.append(Contract(CV, args={'self': 'CascObj'}, setup=cv_setup,
+                       ensures=[('silence_means_stabilization_in_development_in_next_development', ens_cv),
+                                ('reads_only', ens_cv_readonly)],
+                       covers=['return']))
+    env.model('QueuesMap', 'values', trusted='queues.values(): the entries, one per version')(
+        lambda I, self: I.ghost['entries'])
+    env.loop(MQ, 0, inv_mq, havoc=[havoc_local, havoc_R], top_level=True)
+    env.loop(MQ, 1, None, havoc=[havoc_local])
+    cs.append(Contract(MQ, args={'queues': 'opaque'}, setup=mq_setup_small, requires=req_mq,
+                       label=MQ + '[2 versions x 2 entries]',
+                       ensures=[('destinations_stay_nested', ens_mq_chain),
+                                ('each_destination_is_fast_forwarded_to_the_first_listed_entry_of_its_version',
+                                 ens_mq_moves)],
+                       covers=['return']))
+    cs.append(Contract(MQ, args={'queues': 'opaque'}, setup=mq_setup, requires=req_mq,
+                       ensures=[('destinations_stay_nested', ens_mq_chain),
+                                ('each_destination_is_fast_forwarded_to_the_first_listed_entry_of_its_version',
+                                 ens_mq_moves)],
+                       covers=['return']))
+    cs.append(Contract(MIB, args={'job': 'HJob', 'wbranches': 'opaque'}, setup=mib_setup_for(3), label=MIB + '[3 targets]',
+                       ensures=[('each_target_includes_the_previous_target', ens_mib_chain),
+                                ('targets_only_grow_and_receive_their_integration_branch', ens_mib_growth),
+                                ('no_other_branch_moves', ens_mib_frame)],
+                       covers=['return']))
+    cs.append(Contract(HV, args={'self': 'QCObj', 'version': 'opaque'}, setup=hv_setup,
+                       ensures=[('silence_means_queue_branches_nested_above_the_destination', ens_hv_silent_means_nested),
+                                ('reads_only', ens_hv_readonly)],
+                       covers=['return']))
+    import os
+    # 3 targets (119 paths, ~90 s) only in the thorough tier
+    for k in ((1, 2, 3) if os.environ.get('PYVC_TIER') == 'thorough' else (1, 2)):
+        cs.append(Contract(ATQ, args={'job': 'HJob', 'wbranches': 'opaque'}, setup=atq_setup_for(k),
+                           label=ATQ + '[%d targets]' % k,
+                           ensures=[('each_queue_includes_the_previous_queue', ens_atq_chain),
+                                    ('entry_equals_queue_and_includes_destination_and_integration_branch',
+                                     ens_atq_entries),
+                                    ('destination_branches_do_not_move', ens_atq_frame)],
+                           covers=['return']))
     cs.append(Contract(MIB, args={'job': 'HJob', 'wbranches': 'seq[Br]'}, setup=mib_setup,
                        ensures=[('each_target_includes_the_previous_target', ens_mib_chain),
                                 ('targets_only_grow_and_receive_their_integration_branch', ens_mib_growth),
